@@ -9,7 +9,7 @@ under $TMPDIR; it is never required and is keyed on every byte the front end rea
 import hashlib, json, os, pickle, re, shutil, subprocess, sys, tempfile, time
 from concurrent.futures import ProcessPoolExecutor
 
-LOADER_VERSION = 'fe-9'
+LOADER_VERSION = 'fe-10'
 SRC_DIRS = ('libjwt', 'include', 'tools', 'cmake')
 SRC_FILES = ('CMakeLists.txt',)
 
@@ -261,6 +261,20 @@ def _annotate(node, unit, lm, filecache, repo):
         if not isinstance(n, dict):
             continue
         cnt += 1
+        if n.get('kind') == 'InitListExpr' and 'array_filler' in n and not n.get('inner'):
+            # partially initialised array: clang lists [filler, explicit elements...]; C fills the rest with zero.  Expand to the
+            # declared size so that every consumer sees the table the program has.
+            af = n['array_filler']
+            explicit = [x for x in af if isinstance(x, dict) and x.get('kind') != 'ImplicitValueInitExpr']
+            import re as _re
+            m_ = _re.search(r'\[(\d+)\]$', n.get('type', {}).get('qualType', ''))
+            et = (af[0].get('type', {}).get('qualType', '') if af and isinstance(af[0], dict) else '')
+            if m_ and int(m_.group(1)) <= 65536 and _re.sub(r'\b(const|volatile|unsigned|signed)\b', '', et).strip() in ('char', 'int', 'short', 'long', ''):
+                fill = int(m_.group(1)) - len(explicit)
+                zero = {'kind': 'IntegerLiteral', 'value': '0', 'type': {'qualType': 'int'}, 'valueCategory': 'prvalue', '_implicit_zero': True}
+                n['inner'] = explicit + [dict(zero) for _ in range(max(fill, 0))]
+            else:
+                n['inner'] = explicit
         r = n.get('range', {}).get('begin')
         if r:
             exp = r.get('expansionLoc')
